@@ -76,6 +76,18 @@ type writeSet struct {
 	keys   map[string]Sort
 	all    bool
 	locals map[*ssa.Alloc]bool
+	ghosts map[string]bool // ghost globals / call witnesses (re)assigned in the loop body
+}
+
+// setGhost assigns a ghost variable; in discovery mode the name is recorded so that the loop head forgets it.
+func (st *State) setGhost(name string, v Value) {
+	if st.ex.discover != nil {
+		if st.ex.discover.ghosts == nil {
+			st.ex.discover.ghosts = map[string]bool{}
+		}
+		st.ex.discover.ghosts[name] = true
+	}
+	st.ghost[name] = v
 }
 
 type loopInfo struct {
